@@ -106,27 +106,30 @@ def parseImpl (line : String) : Impl := Id.run do
       else if k = "HB" then r := { r with hb := v.toNat? }
     return { r with ok := sawQ }
 
-/-- Group HEADERS + CONTINUATION frames into header blocks and give every DATA frame the offset `off id len hash` decides
-(`none` = the payload is not what was expected there). -/
-def toOuts (off : Nat → Nat → String → Option Nat) : List WFrame → List Out × Option String
+/-- Group HEADERS + CONTINUATION frames into header blocks and give every DATA frame the offset the resolver `off` decides
+(`none` = the payload is not what was expected there). The resolver threads its own state through the frames of the step. -/
+def toOutsS {σ : Type} (off : σ → Nat → Nat → String → Option (Nat × σ)) (st : σ) : List WFrame → List Out × Option String
   | [] => ([], none)
   | .data id len es h :: t =>
-    match off id len h with
+    match off st id len h with
     | none => ([], some s!"DATA payload on stream {id} is not the next {len} bytes the application wrote")
-    | some o => let (r, e) := toOuts off t; (.data id o len es :: r, e)
+    | some (o, st1) => let (r, e) := toOutsS off st1 t; (.data id o len es :: r, e)
   | .headers id es eh len :: t =>
-    if eh then let (r, e) := toOuts off t; (.headers id es [len] :: r, e)
-    else collect id es [len] t
+    if eh then let (r, e) := toOutsS off st t; (.headers id es [len] :: r, e)
+    else collect st id es [len] t
   | .cont id _ _ :: _ => ([], some s!"CONTINUATION on stream {id} without HEADERS")
-  | .rst id code :: t => let (r, e) := toOuts off t; (.rst id code :: r, e)
-  | .other _ :: t => toOuts off t
+  | .rst id code :: t => let (r, e) := toOutsS off st t; (.rst id code :: r, e)
+  | .other _ :: t => toOutsS off st t
 where
-  collect (id : Nat) (es : Bool) (acc : List Nat) : List WFrame → List Out × Option String
+  collect (st : σ) (id : Nat) (es : Bool) (acc : List Nat) : List WFrame → List Out × Option String
     | .cont id' eh len :: t =>
       if id' ≠ id then ([], some s!"CONTINUATION for stream {id'} inside the header block of stream {id}")
-      else if eh then let (r, e) := toOuts off t; (.headers id es (acc ++ [len]) :: r, e)
-      else collect id es (acc ++ [len]) t
+      else if eh then let (r, e) := toOutsS off st t; (.headers id es (acc ++ [len]) :: r, e)
+      else collect st id es (acc ++ [len]) t
     | _ => ([], some s!"header block of stream {id} is not terminated by END_HEADERS")
+
+def toOuts (off : Nat → Nat → String → Option Nat) : List WFrame → List Out × Option String :=
+  toOutsS (σ := Unit) (fun _ id len h => (off id len h).map fun o => (o, ())) ()
 
 /-! ### ops -/
 
